@@ -62,6 +62,17 @@ RSq(a)     == RMul(a, a)
 \* |a - b| <= tol
 RClose(a, b, tol) == RLe(RAbs(RSub(a, b)), tol)
 
+\* floor(a * 10^6) without leaving 32 bits (needs |a| < 2147 and Den(a) < 2 * 10^6):
+\* observed floats are logged as integers in micro-units and compared with exact rationals.
+RMicro(a) ==
+    LET ip == a[1] \div a[2]
+        f  == a[1] % a[2]
+        d1 == (f * 1000) \div a[2]
+        r1 == (f * 1000) % a[2]
+        d2 == (r1 * 1000) \div a[2]
+    IN  ip * 1000000 + d1 * 1000 + d2
+CloseMicro(k, a, tol) == IAbs(k - RMicro(a)) <= tol
+
 RECURSIVE RPow(_, _)
 RPow(a, k) == IF k = 0 THEN One ELSE RMul(a, RPow(a, k - 1))
 
